@@ -551,3 +551,7 @@ CHECKS["C16"]["required_classes"]["all"] += ["agent-level-competing-adds"]
 CHECKS["C03"]["jobs"].append(J("agent-confinement", VTRACE, "TestC03AgentConfinement", {"shards": 3, "checks": 3}, {"shards": 16, "checks": 60}))
 CHECKS["C03"]["prebuild"] = DRV_PREBUILD + BIN_PREBUILD
 CHECKS["C03"]["required_classes"]["all"] += ["agent-traced-with-invalid-names"]
+
+CHECKS["C19"]["jobs"].append(J("timinggrid", AGENT, "TestC19TimingGrid", {"shards": 1, "timeout": 900}, toolchain="go126", rapid=False))
+CHECKS["C19"]["required_classes"]["all"] += ["timing-grid-exhaustive"]
+CHECKS["C19"]["exhaustive_note"] = "the 259 notification patterns of the timing grid (1..4 notifications, gaps from {0, 1ns, limit-1ns, limit, limit+1ns, 2*limit}) are enumerated completely on every run"
